@@ -264,6 +264,69 @@ def pure_calls():
     A(("surface.get_time_shift_motions(tt=0)", ["asig"], lambda s: surface.get_time_shift_motions(s, 0.0, up_red=0.5, down_red=0.5)))
     A(("multiple.combine_at_angle", ["asig", "asig2"], lambda s, s2: multiple.combine_at_angle(s, s2, 30.0).values))
     A(("multiple.compute_rotated", ["asig", "asig2"], lambda s, s2: multiple.compute_rotated(s, s2, parameter="pga", points=7)))
+    # ---- rarely used option combinations of the same functions (one entry per combination)
+    A(("pc.get_major_change_indices(already_diff, dx=0.5)", ["v"], lambda v: pc.get_major_change_indices(v, already_diff=True, dx=0.5)))
+    A(("pc.get_major_change_indices(rtol, atol, dx=0.01)", ["v"], lambda v: pc.get_major_change_indices(v, rtol=1e-3, atol=1e-2, dx=0.01)))
+    A(("pc.get_n_cyc_array(start=peak)", ["v"], lambda v: pc.get_n_cyc_array(v, opt="all", start="peak")))
+    A(("pc.get_peak_array_indices(min)", ["v"], lambda v: pc.get_peak_array_indices(v, ptype="min")))
+    A(("pc.get_zero_and_peak_array_indices(zvals, min_step)", ["v", "w"], lambda v, w: pc.get_zero_and_peak_array_indices(v, zvals=w, min_step=2)))
+    A(("pc.get_zero_crossings_array_indices(keep_adj_zeros)", ["v"], lambda v: pc.get_zero_crossings_array_indices(v, keep_adj_zeros=True)))
+    A(("pc.determine_indices_of_peaks_for_cleaned", ["v"], lambda v: pc.determine_indices_of_peaks_for_cleaned(v)))
+    A(("av.calc_roll_av_vals(forward)", ["v"], lambda v: av.calc_roll_av_vals(v, 4)))
+    A(("av.calc_roll_av_vals(backward)", ["v"], lambda v: av.calc_roll_av_vals(v, 7, mode="backward")))
+    A(("av.calc_roll_av_vals(center, 1)", ["v"], lambda v: av.calc_roll_av_vals(v, 1, mode="center")))
+    A(("av.calc_step_fn_vals_error(pow=1, dir=down)", ["v"], lambda v: av.calc_step_fn_vals_error(v, pow=1, dir="down")))
+    A(("av.calc_step_fn_vals_error(dir=up)", ["v"], lambda v: av.calc_step_fn_vals_error(v, 2, "up")))
+    A(("av.calc_step_fn_steps_vals(ind)", ["v"], lambda v: av.calc_step_fn_steps_vals(v, ind=9)))
+    A(("av.get_section_average(index)", ["asig"], lambda s: av.get_section_average(s, start=3, end=40, index=True)))
+    A(("gn.interp2d(queries outside the table)", ["xqo", "xf", "tab"], lambda xq, xf, tab: gn.interp2d(xq, xf, tab)))
+    A(("gn.interp2d(queries on the nodes)", ["xqn", "xf", "tab"], lambda xq, xf, tab: gn.interp2d(xq, xf, tab)))
+    A(("gn.interp_left(beyond the last node)", ["xqr", "xf", "yy"], lambda xq, xf, yy: gn.interp_left(xq, xf, yy)))
+    A(("gn.interp_left(y=None)", ["xq", "xf"], lambda xq, xf: gn.interp_left(xq, xf)))
+    A(("gn.interp_left(scalar query)", ["xf", "yy"], lambda xf, yy: gn.interp_left(1.7, xf, yy)))
+    A(("gn.remove_poly(0)", ["v"], lambda v: gn.remove_poly(v)))
+    for clip_ in ("none", "start", "end"):
+        A(("ts.put_array_in_2d_array(clip=%s)" % clip_, ["v", "sh"], (lambda c: (lambda v, sh: ts.put_array_in_2d_array(v, sh, clip=c)))(clip_)))
+    A(("ts.join_values_w_shifts(add)", ["v", "shp"], lambda v, sh: ts.join_values_w_shifts(v, sh)))
+    A(("ts.join_sig_w_time_shift(sub)", ["asig", "tsh"], lambda s, tsh: ts.join_sig_w_time_shift(s, tsh, jtype="sub")))
+    A(("tp.interp_array_to_approx_dt(even=False)", ["v"], lambda v: tp.interp_array_to_approx_dt(v, DT, 0.003, even=False)))
+    A(("tp.interp_array_to_approx_dt(same step)", ["v"], lambda v: tp.interp_array_to_approx_dt(v, DT, DT)))
+    A(("tp.interp_to_approx_dt(decimate, even=False)", ["asig"], lambda s: tp.interp_to_approx_dt(s, 0.035, even=False).values))
+    A(("tp.resample_to_approx_dt(decimate)", ["asig"], lambda s: tp.resample_to_approx_dt(s, 0.02, even=False).values))
+    A(("fq.calc_fa_spectrum(n)", ["asig"], lambda s: fq.calc_fa_spectrum(s, n=301)))
+    A(("fq.generate_fa_spectrum(n_pad=False)", ["asig"], lambda s: fq.generate_fa_spectrum(s, n_pad=False)))
+    A(("fq.calc_smooth_fa_spectrum(default targets, band)", ["ff", "fa"], lambda ff, fa: fq.calc_smooth_fa_spectrum(ff, fa, band=20)))
+    A(("fq.calc_smoothing_matrix_konno_1998(default targets, band)", ["ff"], lambda ff: fq.calc_smoothing_matrix_konno_1998(ff, band=60)))
+    A(("fq.generate_smooth_fa_spectrum", ["sf", "ff", "fa"], lambda sf, ff, fa: fq.generate_smooth_fa_spectrum(sf, ff, fa, band=30)))
+    A(("fq.fas2signal(acc)", ["fa"], lambda fa: fq.fas2signal(fa, DT, stype="acc-signal").values))
+    A(("fq.get_sig_freq_range(ratio)", ["asig"], lambda s: fq.get_sig_freq_range(s, ratio=5)))
+    A(("fq.get_sig_array_indexes_range", ["absfa"], lambda a: fq.get_sig_array_indexes_range(a, ratio=4)))
+    A(("im.calc_asi(xi, periods)", ["asig"], lambda s: im.calc_asi(s, xi=0.1, periods=np.array([0.1, 0.2, 0.5]))))
+    A(("im.calc_vsi(xi)", ["asig"], lambda s: im.calc_vsi(s, xi=0.02)))
+    A(("im.calc_bandwidth_freqs(ratio)", ["asig"], lambda s: im.calc_bandwidth_freqs(s, ratio=0.5)))
+    A(("im.calc_brac_dur(se=False)", ["asig"], lambda s: im.calc_brac_dur(s, 1.1)))
+    A(("im.calc_n_cyc_array_w_power_law(cut_off=0, array b)", ["v"], lambda v: im.calc_n_cyc_array_w_power_law(v, 0.8, np.array([0.3, 0.5]), cut_off=0.0)))
+    A(("im.calc_cyc_amp_array_w_power_law(array b)", ["v"], lambda v: im.calc_cyc_amp_array_w_power_law(v, 7.5, np.array([0.2, 1.0]))))
+    A(("im.calc_sig_dur(start, end, se)", ["asig"], lambda s: im.calc_sig_dur(s, start=0.1, end=0.8, se=True)))
+    A(("im.calc_sig_dur_vals(start, end)", ["v"], lambda v: im.calc_sig_dur_vals(v, DT, start=0.2, end=0.75)))
+    A(("im.calc_significant_duration", ["v"], lambda v: im.calc_significant_duration(v, DT)))
+    A(("sdof.calc_input_energy_spectrum(series, xi)", ["asig"], lambda s: sdof.calc_input_energy_spectrum(s, periods=P[1:], xi=0.2, series=True)))
+    A(("sdof.calc_resp_uke_spectrum(xi)", ["asig"], lambda s: sdof.calc_resp_uke_spectrum(s, periods=P[2:], xi=0.0)))
+    A(("im.cumulative_response_spectra(xi)", ["asig"], lambda s: im.cumulative_response_spectra(s, "arias_intensity", periods=P[2:], xi=0.2)))
+    A(("stockwell.get_stockwell_freqs / times (after transform)", ["asig"], lambda s: (setattr(s, "swtf", stockwell.transform(np.asarray(s.values, dtype=float))), stockwell.get_stockwell_freqs(s), stockwell.get_stockwell_times(s))[1:]))
+    A(("sdof.absmax(axis)", ["tab"], lambda t: sdof.absmax(t, axis=1)))
+    A(("sdof.response_series(xi=0, no zero period)", ["v"], lambda v: sdof.response_series(v, DT, P[1:], 0.0)))
+    A(("sdof.single_elastic_response", ["v"], lambda v: sdof.single_elastic_response(v, DT, 0.5, 0.05)))
+    A(("sdof.slow_response_spectra", ["v"], lambda v: sdof.slow_response_spectra(v[:60], DT, P[1:], np.array([0.05, 0.2]))))
+    A(("displacements.velocity_and_displacement_from_acceleration", ["v"], lambda v: displacements.velocity_and_displacement_from_acceleration(v, DT, trap=True)))
+    for nod_, trim_, start_ in ((False, False, True), (True, True, True), (False, True, False), (True, False, False)):
+        A(("surface.calc_surface_energy(nodal=%s, trim=%s, start=%s, stt)" % (nod_, trim_, start_), ["asig", "tt"],
+           (lambda a, b, c: (lambda s, tt: surface.calc_surface_energy(s, tt, nodal=a, up_red=0.9, down_red=0.7, stt=0.035, trim=b, start=c)))(nod_, trim_, start_)))
+    A(("surface.get_time_shift_motions(trim, start, stt)", ["asig", "tt"], lambda s, tt: surface.get_time_shift_motions(s, tt, nodal=False, stt=0.02, trim=True, start=True)))
+    A(("surface.trim_to_length", ["rows3", "tt"], lambda r, tt: surface.trim_to_length(r, 200, tt, DT, trim=True, start=True, s2s_travel_time=0.03)))
+    A(("stockwell.transform_slow(ith=1)", ["v"], lambda v: stockwell.transform_slow(v[:40], ith=1)))
+    A(("multiple.compute_rotated(func, offset)", ["asig", "asig2"], lambda s, s2: multiple.compute_rotated(s, s2, angle_off_ns=25.0, func=im.calc_cav, points=5)))
+    A(("multiple.compute_rotated(array-valued parameter)", ["asig", "asig2"], lambda s, s2: multiple.compute_rotated(s, s2, parameter="velocity", points=3)))
     A(("Signal(...)", ["v"], lambda v: eqsig.Signal(v, DT).values))
     A(("AccSignal(...).derived", ["v"], lambda v: (lambda o: (o.velocity, o.displacement, o.fa_spectrum, o.s_a))(eqsig.AccSignal(v, DT, response_times=P[1:]))))
     return L
@@ -307,6 +370,8 @@ def make_env(dtype, container, seed, shape="generic"):
            "per": wrap(np.array([0.0, 0.05, 0.3, 1.0])),
            "ff": np.array(asig.fa_freqs), "fa": np.array(asig.fa_spectrum), "sf": np.logspace(-0.3, 1.3, 9),
            "xq": np.array([0.5, 1.0, 2.2, 2.5]), "xf": np.array([0.0, 1.0, 2.0, 3.0]),
+           "xqo": np.array([-1.0, 0.5, 2.5, 4.5]), "xqn": np.array([0.0, 1.0, 3.0]), "xqr": np.array([0.0, 2.5, 3.0, 7.0]),
+           "absfa": np.abs(np.array(asig.fa_spectrum)), "rows3": np.outer(np.array([1.0, 0.5, -2.0]), np.asarray(x, dtype=float)),
            "tab": np.array([[0, 0, 0], [0, 1, 4], [2, 6, 2], [10, 10, 10.0]]), "yy": wrap(np.array([5.0, 6.0, 7.5, 9.0])),
            "sh": np.array([-2, 0, 3]), "shp": np.array([0, 2, 3]), "tsh": np.array([0.0, 0.02, 0.05]), "tt": np.array([0.0, 0.015, 0.04]),
            "red": np.array([1.0, 0.9, 0.5]), "stock": stockwell.transform(x.astype(float))}
